@@ -61,8 +61,28 @@ def gen_workspace(rng):
         files = {}
         for loc, t in p["mods"].items():
             files[loc.rsplit("/", 1)[1]] = decorate(rng, t)
+        if len(files) > 1 and rng.random() < 0.6:
+            files = relocate(rng, files)
         return files
     return {"main.oal": "let a = num;\nres / on get -> <a>;\n"}
+
+
+def relocate(rng, files):
+    """move the modules other than main.oal into (nested) directories and rewrite the import
+    paths, which are relative to the importing module"""
+    import posixpath
+    import re
+    dirs = {n: ("" if n == "main.oal" else rng.choice(["", "lib", "lib", "lib/sub", "other"])) for n in files}
+    out = {}
+    for n, t in files.items():
+        def fix(m, n=n):
+            tgt = m.group(1)
+            if tgt not in files:
+                return m.group(0)
+            rel = posixpath.relpath(posixpath.join("/", dirs[tgt], tgt), posixpath.join("/", dirs[n]))
+            return 'use "%s"' % rel
+        out[posixpath.join(dirs[n], n)] = re.sub(r'use "([^"]+)"', fix, t)
+    return out
 
 
 def bindings(files, root):
